@@ -268,8 +268,12 @@ func (sw *SlidingWindow) Add(data any) {
 			inCurrent := sw.initialized && sw.currentSlot != nil && sw.currentSlot.Contains(eventTime)
 			placed := false
 			if sw.config.AllowedLateness > 0 {
+				// A triggered window the watermark has already passed closeTime of is
+				// closed for this event even if the trigger goroutine has not caught up
+				// with the watermark and removed it yet.
+				wm := sw.watermark.GetCurrentWatermark()
 				for _, info := range sw.triggeredWindows {
-					if info.slot.Contains(eventTime) {
+					if info.slot.Contains(eventTime) && wm.Before(info.closeTime) {
 						placed = true
 						break
 					}
@@ -903,6 +907,9 @@ func (sw *SlidingWindow) handleLateData(eventTime time.Time, allowedLateness tim
 	}
 	var slots []*types.TimeSlot
 	for _, info := range sw.triggeredWindows {
+		if sw.watermark != nil && !sw.watermark.GetCurrentWatermark().Before(info.closeTime) {
+			continue // beyond this window's allowance, whether or not it was reaped yet
+		}
 		if info.slot.Contains(eventTime) {
 			slots = append(slots, info.slot)
 			if late != nil {
